@@ -425,7 +425,7 @@ def history_parts(pid: str, tier: str):
         parts.append(Part("arguments-cannot-reach-setup-nodes", P(run_c15_setup_inputs, HCfg(flavours="sa")), {"routes": "positional, keyword, flag, indexed flag, defaulted-argument flag, flag computed by a node from the argument",
                           "what": "refused at build time, or two calls with different arguments behave like fresh DAGs"}, 300, 3, ["w_refused"], HIST_FUNCS))
         if not q:
-            parts.append(Part("histories-len4", P(run_c15, HCfg(length=4, flavours="s")), dict(b, length="4+1"), 3600, 9, ["w_final_call"], HIST_FUNCS))
+            parts.append(Part("histories-len4", P(run_c15, HCfg(length=4, flavours="s", ops="noargsetup")), dict(b, length="4+1", operations_left_out="setup(target_nodes=[]) and setup(target_nodes=[n])"), 3600, 9, ["w_final_call"], HIST_FUNCS))
     elif pid == "C18":
         b = {"N": 3, "caching selection": "whole, target=[i], cache_deps_of=[i]", "restart": "same selection or whole DAG; on the same instance or on a pristine deep copy", "setup": "first node optionally a setup node"}
         parts.append(Part("cache-restart", P(run_c18, HCfg(N=3, length=3, flavours="sa")), dict(b, flavours="sync and async", extra="restart from a cache written by another instance"), 900, 8, ["w_deps_of_restart", "w_deps_of_two", "w_foreign_cache", "w_chained_caches"], HIST_FUNCS))
